@@ -420,6 +420,7 @@ class JobResult:
         self.violations = []       # dicts: site, inputs(json), observed, info
         self.unconfirmed = []
         self.exc_paths = {}        # exception type name -> count
+        self.exc_msgs = []
         self.unsupported = []
         self.budget = 0
         self.sites = {}            # site -> [reached, discharged]
@@ -434,6 +435,7 @@ class JobResult:
                   'xval_inexact', 'budget', 'wall'):
             setattr(self, k, getattr(self, k) + getattr(o, k))
         self.xval_bad += o.xval_bad
+        self.exc_msgs = (self.exc_msgs + o.exc_msgs)[:4]
         self.violations += o.violations
         self.unconfirmed += o.unconfirmed
         for k, v in o.exc_paths.items():
@@ -594,6 +596,8 @@ class Runner:
         if exc is not None:
             nm = type(exc).__name__
             res.exc_paths[nm] = res.exc_paths.get(nm, 0) + 1
+            if len(res.exc_msgs) < 4 and not any(m.startswith(nm) and str(exc)[:40] in m for m in res.exc_msgs):
+                res.exc_msgs.append("%s: %s" % (nm, str(exc)[:160]))
             if self.job.exc_policy != 'skip':
                 res.errors.append("uncaught %s: %s" % (nm, str(exc)[:200]))
         if not self.job.xval:
